@@ -101,7 +101,7 @@ func refSelect(sp world.SPSpec, requested string) []world.ACSSpec {
 
 var c08DefectCatalogue = []Defect{
 	{Name: "bad-base64"}, {Name: "bad-deflate"}, {Name: "truncated-xml"}, {Name: "unclosed-tag"}, {Name: "not-xml"}, {Name: "empty-xml"},
-	{Name: "bad-entity", Param: "undefined/text"}, {Name: "bad-entity", Param: "nbsp/text"}, {Name: "bad-entity", Param: "nbsp/attr"}, {Name: "bad-entity", Param: "copy/attr"}, {Name: "bad-entity", Param: "eacute/text"},
+	{Name: "unquoted-attr"}, {Name: "attr-without-value"}, {Name: "bad-entity", Param: "undefined/text"}, {Name: "bad-entity", Param: "nbsp/text"}, {Name: "bad-entity", Param: "nbsp/attr"}, {Name: "bad-entity", Param: "copy/attr"}, {Name: "bad-entity", Param: "eacute/text"},
 	{Name: "wrong-root", Param: "LogoutRequest"}, {Name: "wrong-root", Param: "Response"}, {Name: "wrong-root-ns"},
 	{Name: "issuer-absent"}, {Name: "issuer-empty"}, {Name: "issuer-unregistered"}, {Name: "issuer-case"}, {Name: "issuer-blank"}, {Name: "issuer-slash"},
 	{Name: "id-absent"}, {Name: "id-empty"}, {Name: "version-absent"}, {Name: "version-empty"},
